@@ -338,6 +338,8 @@ pub(crate) fn parse_f64(v: &str) -> Option<f64> {
         ".inf" | ".Inf" | ".INF" | "+.inf" | "+.Inf" | "+.INF" => Some(f64::INFINITY),
         "-.inf" | "-.Inf" | "-.INF" => Some(f64::NEG_INFINITY),
         ".nan" | ".NaN" | ".NAN" => Some(f64::NAN),
+        // `f64::from_str` also accepts `inf`, `infinity` and `nan`, which are not YAML floats.
+        _ if v.bytes().any(|b| b.is_ascii_alphabetic() && b != b'e' && b != b'E') => None,
         _ => v.parse::<f64>().ok(),
     }
 }
